@@ -462,7 +462,7 @@ def unit_requests(rng, tier, info, driver):
         bases.append(('S', gen_S(rng)))
     for _ in range(nT):
         tree, ch = gen_T(rng, info)
-        bases.append(('T', '%d %d %d %s %s' % (rng.choice([0, 1, 1]), rng.choice([1, 2, 3]), info['pubid'], tree, ch)))
+        bases.append(('T', '%d %d %d %s %s' % (rng.choice([0, 1, 1]), rng.choice([0, 1, 2, 3]), info['pubid'], tree, ch)))
     bases = [b for b in bases if b[1].strip()]
     zero = ['OOM %s 0 0 %s' % b for b in bases]
     resp = run_lines([driver], zero)
@@ -648,6 +648,10 @@ def run(res, args):
     except (OSError, ValueError):
         stored = []
     seen_replays = set()
+    try:
+        stored += json.load(open(os.path.join(corpus_dir, 'known.json')))
+    except (OSError, ValueError):
+        pass
     for e in stored:
         if (e['direction'], e['document'], e['optset']) in seen_replays:
             continue
